@@ -51,6 +51,8 @@ structure Cfg where
   enabled0 : Bool := true      -- !UFTRACE_TRACE_OFF
   f4fixed : Bool := true       -- false: __mcount_entry before the repair of finding F4
   s4fixed : Bool := true       -- false: exit hooks keep a call only if it ran strictly longer than the threshold (finding S4)
+  f7fixed : Bool := true       -- false: no flush of the pending ENTRY records at the TRACE_OFF update of
+                               -- mcount_entry_filter_check (finding F-C07-TRACEOFF-FLUSH)
   trig : Nat → Trigger := fun _ => {}
   fsize : Nat → Nat := fun _ => 16
 
@@ -180,6 +182,50 @@ def depthLimit (cfg : Cfg) (tr : Trigger) (f0 : Filt) : Nat :=
 def trigEnabled (tr : Trigger) (en : Bool) : Bool :=
   if tr.traceOff then false else if tr.traceOn then true else en
 
+/-- the TRACE_OFF update of mcount_entry_filter_check after the repair of finding F-C07-TRACEOFF-FLUSH:
+    `if (mcount_enabled && mtdp->idx > 0) record_trace_data(mtdp, &mtdp->rstack[mtdp->idx - 1], NULL);`
+    before `mcount_enabled = false`.  `s.frames` are the callers' frames (the new frame is not pushed
+    yet; mcount_check_rstack returned 0, so no call is counted beyond the stack), `mcount_enabled` is
+    `s.enabled` after the TRACE_ON update just above.  The ENTRY records of the open callers are
+    written here because the function that switches tracing off may itself be rejected (depth, …) and
+    then never reaches the flush in mcount_entry_filter_record.  `cfg.f7fixed = false`: the code
+    before the repair. -/
+def traceOffFlush (cfg : Cfg) (s : St) (tr : Trigger) : St :=
+  if cfg.f7fixed && tr.traceOff && (tr.traceOn || s.enabled) then
+    { s with frames := (recordTrace s.frames).1, out := s.out ++ (recordTrace s.frames).2 }
+  else s
+
+@[simp] theorem traceOffFlush_of_traceOff_false (cfg : Cfg) (s : St) (tr : Trigger) (h : tr.traceOff = false) :
+    traceOffFlush cfg s tr = s := by simp [traceOffFlush, h]
+@[simp] theorem traceOffFlush_of_f7_false (cfg : Cfg) (s : St) (tr : Trigger) (h : cfg.f7fixed = false) :
+    traceOffFlush cfg s tr = s := by simp [traceOffFlush, h]
+@[simp] theorem traceOffFlush_none (cfg : Cfg) (s : St) : traceOffFlush cfg s {} = s := by simp [traceOffFlush]
+@[simp] theorem traceOffFlush_disabled (cfg : Cfg) (s : St) (tr : Trigger) (h1 : tr.traceOn = false)
+    (h2 : s.enabled = false) : traceOffFlush cfg s tr = s := by simp [traceOffFlush, h1, h2]
+@[simp] theorem traceOffFlush_over (cfg : Cfg) (s : St) (tr : Trigger) : (traceOffFlush cfg s tr).over = s.over := by
+  unfold traceOffFlush; split <;> rfl
+@[simp] theorem traceOffFlush_recordIdx (cfg : Cfg) (s : St) (tr : Trigger) :
+    (traceOffFlush cfg s tr).recordIdx = s.recordIdx := by unfold traceOffFlush; split <;> rfl
+@[simp] theorem traceOffFlush_warned (cfg : Cfg) (s : St) (tr : Trigger) :
+    (traceOffFlush cfg s tr).warned = s.warned := by unfold traceOffFlush; split <;> rfl
+@[simp] theorem traceOffFlush_filt (cfg : Cfg) (s : St) (tr : Trigger) : (traceOffFlush cfg s tr).filt = s.filt := by
+  unfold traceOffFlush; split <;> rfl
+@[simp] theorem traceOffFlush_enabled (cfg : Cfg) (s : St) (tr : Trigger) :
+    (traceOffFlush cfg s tr).enabled = s.enabled := by unfold traceOffFlush; split <;> rfl
+@[simp] theorem traceOffFlush_enableCached (cfg : Cfg) (s : St) (tr : Trigger) :
+    (traceOffFlush cfg s tr).enableCached = s.enableCached := by unfold traceOffFlush; split <;> rfl
+@[simp] theorem traceOffFlush_finished (cfg : Cfg) (s : St) (tr : Trigger) :
+    (traceOffFlush cfg s tr).finished = s.finished := by unfold traceOffFlush; split <;> rfl
+/-- the two fields the flush touches -/
+theorem traceOffFlush_frames (cfg : Cfg) (s : St) (tr : Trigger) :
+    (traceOffFlush cfg s tr).frames =
+      if cfg.f7fixed && tr.traceOff && (tr.traceOn || s.enabled) then (recordTrace s.frames).1 else s.frames := by
+  unfold traceOffFlush; split <;> rfl
+theorem traceOffFlush_out (cfg : Cfg) (s : St) (tr : Trigger) :
+    (traceOffFlush cfg s tr).out =
+      if cfg.f7fixed && tr.traceOff && (tr.traceOn || s.enabled) then s.out ++ (recordTrace s.frames).2 else s.out := by
+  unfold traceOffFlush; split <;> rfl
+
 /-- mcount_entry_filter_check; also returns the trigger that was matched
     (`{}` when the function returned before matching). -/
 def entryFilterCheck (cfg : Cfg) (s : St) (addr : Nat) : FR × St × Trigger :=
@@ -196,6 +242,8 @@ def entryFilterCheck (cfg : Cfg) (s : St) (addr : Nat) : FR × St × Trigger :=
   if earlyOut cfg tr f0 then (.out, { s with filt := f1 }, tr) else
   let f3 := trigFilt tr f1
   let en := trigEnabled tr s.enabled
+  -- TRACE_ON, then TRACE_OFF: the pending ENTRY records of the callers are written before tracing goes off
+  let s := traceOffFlush cfg s tr
   if f3.depth ≥ depthLimit cfg tr f0 then (.out, { s with filt := f3, enabled := en }, tr)
   else (.in_, { s with filt := { f3 with depth := f3.depth + 1 }, enabled := en }, tr)
 
